@@ -7,10 +7,12 @@ mod c01;
 mod c04;
 mod c05;
 mod c06;
+mod c14;
 mod c15;
 mod c16;
 mod c17;
 mod c19;
+mod cfr;
 mod walk;
 
 pub struct Opts {
@@ -50,10 +52,12 @@ fn main() {
         "c04" => c04::run(&o, deck),
         "c05" => c05::run(&o, deck),
         "c06" => c06::run(&o, deck),
+        "c14" => c14::run(&o, deck),
         "c15" => c15::run(&o, deck),
         "c16" => c16::run(&o, deck),
         "c17" => c17::run(&o, deck),
         "c19" => c19::run(&o, deck),
+        "cfr" => cfr::run(&o, deck),
         "walk" => walk::run(&o, deck, "walk"),
         x => {
             eprintln!("unknown check {}", x);
